@@ -135,6 +135,16 @@ func (i countIC) WrapStreamingHandler(next connect.StreamingHandlerFunc) connect
 	}
 }
 
+type passIC struct{}
+
+func (passIC) WrapUnary(n connect.UnaryFunc) connect.UnaryFunc { return n }
+func (passIC) WrapStreamingClient(n connect.StreamingClientFunc) connect.StreamingClientFunc {
+	return n
+}
+func (passIC) WrapStreamingHandler(n connect.StreamingHandlerFunc) connect.StreamingHandlerFunc {
+	return n
+}
+
 func streamType(kind string) connect.StreamType {
 	switch kind {
 	case prog.Client:
@@ -377,7 +387,9 @@ func checkSpec(tt *testing.T, c SpecCase) (pbt.Info, error) {
 	info := pbt.Info{NonTrivial: strings.Count(c.Base, "/") > 2}
 	hcnt, ccnt := &counter{}, &counter{}
 	cfg := prog.Config{Protocol: c.Protocol, Codec: "proto", Kind: c.Kind}
-	copts := append(cfg.ClientOptions(), connect.WithInterceptors(countIC{ccnt}))
+	// two separate WithInterceptors options, applied (by the generated
+	// constructors) to every procedure of the service
+	copts := append(cfg.ClientOptions(), connect.WithInterceptors(countIC{ccnt}), connect.WithInterceptors(passIC{}))
 	var procedure string
 	var h http.Handler
 	log := &prog.HLog{}
@@ -385,7 +397,7 @@ func checkSpec(tt *testing.T, c SpecCase) (pbt.Info, error) {
 		// generated client and handler for the Ping service
 		info.Label("generated-client")
 		mux := http.NewServeMux()
-		path, hh := pingv1connect.NewPingServiceHandler(pingServer{}, connect.WithInterceptors(countIC{hcnt}))
+		path, hh := pingv1connect.NewPingServiceHandler(pingServer{}, connect.WithInterceptors(countIC{hcnt}), connect.WithInterceptors(passIC{}))
 		mux.Handle(path, hh)
 		h = mux
 		mem := &memnet.Mem{Handler: stripPrefix(h)}
